@@ -747,6 +747,7 @@ pub fn explain_main(path: &Path) -> i32 {
                         Ev::Lock { task, lock, excl, kind } => println!("  {:<10} {:?} {:?}({})", crate::world::role_name(*task), kind, lock, if *excl { "W" } else { "R" }),
                         Ev::Spawn { task, worker } => println!("  {:<10} spawns worker#{worker}", crate::world::role_name(*task)),
                         Ev::Point { task, label } => println!("  {:<10} at {label}", crate::world::role_name(*task)),
+                        Ev::Cond { task, cond, kind } => println!("  {:<10} {kind} Condvar({cond})", crate::world::role_name(*task)),
                         Ev::DiskRead { task, path, found } => println!("  {:<10} reads {} ({})", crate::world::role_name(*task), path.display(), if *found { "ok" } else { "fails" }),
                         Ev::ClientSend { op } => println!("  client     sends op {op}"),
                         _ => {}
